@@ -201,10 +201,12 @@ def compare(rep, name, kind, x, y, sargs, dargs, jargs):
         return False
     if ds != "ok" or math.isnan(dv):
         return True
-    scale = R.abs_scale(name, x, y, _kw_for(name, dargs))
+    kw = _kw_for(name, dargs)
+    scale = R.abs_scale(name, x, y, kw)
+    band = spec["band"](x, y, kw, scale) if spec["band"] is not None else None     # pre-image band, widened to the dense value
     ok = True
     for tag, v in (("", sv), (" (arguments swapped)", sv2)):
-        if not R.close(v, dv, name, scale):
+        if not R.close(v, dv, name, scale, band):
             key = "sparse:%s:value" % cname
             # D18: sparse_correlation(empty, constant) = 1.0, dense correlation(0-vector, constant) = 0.0
             if cname == "correlation" and (e1 != e2) and v == 1.0 and dv == 0.0:
